@@ -13,22 +13,31 @@ import (
 	"sync"
 	"time"
 
+	ds "github.com/ipfs/go-datastore"
 	logging "github.com/ipfs/go-log/v2"
+	"google.golang.org/protobuf/proto"
 
 	coresequencer "github.com/evstack/ev-node/core/sequencer"
 	"github.com/evstack/ev-node/sequencers/single"
+	pb "github.com/evstack/ev-node/types/pb/evnode/v1"
 
 	"verifharness/world"
 )
 
 const (
-	chainID      = "c10-chain"
-	foreignID    = "c10-other-chain"
-	queuePrefix  = "/batches"
-	maxStateSet  = 2048
-	crashNone    = 0
-	crashCut     = 1 // CrashAfter(0): the durable write of the operation is lost, the process dies inside the operation
-	crashAfterOp = 2 // CrashAfter(1): the write lands, the operation returns, the process dies before its next write
+	chainID     = "c10-chain"
+	foreignID   = "c10-other-chain"
+	maxStateSet = 8192
+	crashNone   = 0
+	// Crash = k >= 1 on a submit / next: the process dies at the k-th durable write it attempts from
+	// the start of the operation on (the first k-1 land). If the operation needs fewer writes it
+	// returns normally, its output is seen, and the process dies right after it. With one write per
+	// operation k=1 is "inside the operation, write lost" and k=2 "right after the operation"; an
+	// operation that makes two writes is cut between them by k=2.
+	maxCrashK = 3
+	// legacyPrefix is where the version before the sequence-numbered keys kept its records (only
+	// used to build the database such a version left behind, never to judge)
+	legacyPrefix = "/batches"
 )
 
 // Op is one operation of a sequential history.
@@ -36,7 +45,7 @@ type Op struct {
 	Kind  string `json:"kind"`            // sub | sub-empty | sub-foreign | next | restart
 	Batch string `json:"batch,omitempty"` // batch name: z a m (alphabet) or u<n> (unique)
 	Nil   bool   `json:"nil_batch,omitempty"`
-	Crash int    `json:"crash,omitempty"` // on sub/next: 1 = cut by a crash (write lost), 2 = crash right after
+	Crash int    `json:"crash,omitempty"` // on sub/next: k = the process dies at the k-th durable write from here on
 }
 
 func (o Op) String() string {
@@ -47,11 +56,8 @@ func (o Op) String() string {
 	if o.Nil {
 		s += "(nil)"
 	}
-	switch o.Crash {
-	case crashCut:
-		s += " !crash-inside"
-	case crashAfterOp:
-		s += " !crash-after"
+	if o.Crash != crashNone {
+		s += fmt.Sprintf(" !dies-at-write-%d", o.Crash)
 	}
 	return s
 }
@@ -61,12 +67,18 @@ type History struct {
 	ID     int    `json:"id"`
 	Region string `json:"region"` // clean | content-hash-key | reload-order (how it was generated)
 	Bound  int    `json:"queue_bound"`
-	Ops    []Op   `json:"ops"`
+	// Legacy names batches whose records, in the format of the version before the sequence-numbered
+	// keys (key = content hash), are in the database before the first sequencer starts
+	Legacy []string `json:"legacy_records,omitempty"`
+	Ops    []Op     `json:"ops"`
 }
 
 func (h History) kinds() string {
 	var sb strings.Builder
 	fmt.Fprintf(&sb, "b%d:", h.Bound)
+	if len(h.Legacy) > 0 {
+		fmt.Fprintf(&sb, "L%d:", len(h.Legacy))
+	}
 	for _, o := range h.Ops {
 		switch o.Kind {
 		case "sub":
@@ -140,14 +152,14 @@ func predicted(S []*mstate, op Op, bound int) (out []*mstate, a, b bool) {
 	switch op.Kind {
 	case "sub":
 		for _, s := range S {
-			if op.Crash == crashCut {
+			if op.Crash != crashNone {
 				out = append(out, s)
 			}
 			out = append(out, effSub(s, op.Batch, bound))
 		}
 	case "next":
 		for _, s := range S {
-			if op.Crash == crashCut {
+			if op.Crash != crashNone {
 				out = append(out, s)
 			}
 			out = append(out, effNext(s)...)
@@ -166,7 +178,7 @@ func predicted(S []*mstate, op Op, bound int) (out []*mstate, a, b bool) {
 
 // Triggers evaluates the trigger predicates of the two findings over a generated history.
 func Triggers(h History) (a, b bool) {
-	S := []*mstate{newState()}
+	S := []*mstate{newLegacyState(h.Legacy)}
 	for _, op := range h.Ops {
 		var ta, tb bool
 		S, ta, tb = predicted(S, op, h.Bound)
@@ -202,6 +214,8 @@ func genSeq(rng *rand.Rand, id int, region string) History {
 			if b && !a {
 				return h
 			}
+		default:
+			return h
 		}
 	}
 }
@@ -212,6 +226,15 @@ func genSeqOnce(rng *rand.Rand, id int, region string) History {
 	if region != "clean" && h.Bound == 1 {
 		h.Bound = []int{2, 5, 0}[rng.Intn(3)]
 	}
+	if region == "legacy" {
+		// a database left behind by the older version: 1-3 records with distinct contents
+		for i, n := 0, 1+rng.Intn(3); i < n; i++ {
+			h.Legacy = append(h.Legacy, fmt.Sprintf("L%d", id*10+i))
+		}
+		if h.Bound > 0 && h.Bound < len(h.Legacy) {
+			h.Bound = 5
+		}
+	}
 	n := 20 + rng.Intn(61)
 	alphabet := []string{"z", "a", "m"}
 	pAlpha := 0 // percent of submissions drawn from the 3-batch alphabet
@@ -220,10 +243,12 @@ func genSeqOnce(rng *rand.Rand, id int, region string) History {
 		pAlpha = []int{0, 70, 90}[rng.Intn(3)]
 	case "content-hash-key":
 		pAlpha = 85
+	case "legacy":
+		pAlpha = []int{0, 60}[rng.Intn(2)]
 	}
 	pSub := 35 + rng.Intn(25)
 	uniq := 0
-	S := []*mstate{newState()}
+	S := []*mstate{newLegacyState(h.Legacy)}
 	restarts := 0 // restarts and crashes; bounded in the trigger regions to keep the model's state set small
 	for len(h.Ops) < n {
 		var op Op
@@ -246,8 +271,8 @@ func genSeqOnce(rng *rand.Rand, id int, region string) History {
 		default:
 			op = Op{Kind: "next"}
 		}
-		if (op.Kind == "sub" || op.Kind == "next") && rng.Intn(100) < 10 {
-			op.Crash = 1 + rng.Intn(2)
+		if (op.Kind == "sub" || op.Kind == "next") && rng.Intn(100) < 12 {
+			op.Crash = 1 + rng.Intn(maxCrashK)
 		}
 		if region != "clean" && (op.Kind == "restart" || op.Crash != 0) {
 			if restarts >= 5 {
@@ -331,14 +356,6 @@ var (
 type proc struct {
 	ds  *world.MemDS
 	seq *single.Sequencer
-	mu  sync.Mutex
-	out string // first key written outside the queue prefix
-}
-
-func (p *proc) outside() string {
-	p.mu.Lock()
-	defer p.mu.Unlock()
-	return p.out
 }
 
 func startProc(im *world.Image, bound int) (*proc, error) {
@@ -350,17 +367,6 @@ func startProcY(im *world.Image, bound int, yield func()) (*proc, error) {
 	d := world.NewMemDS(im)
 	d.Yield = yield
 	p := &proc{ds: d}
-	d.OnWrite = func(w world.WriteRec) {
-		for _, k := range w.Keys {
-			if !strings.HasPrefix(k, queuePrefix+"/") {
-				p.mu.Lock()
-				if p.out == "" {
-					p.out = k
-				}
-				p.mu.Unlock()
-			}
-		}
-	}
 	metrics, _ := single.NopMetrics()
 	s, err := single.NewSequencerWithQueueSize(context.Background(), seqLogger, d, world.NewDADouble(), []byte(chainID), time.Hour, metrics, true, bound)
 	if err != nil {
@@ -370,17 +376,17 @@ func startProcY(im *world.Image, bound int, yield func()) (*proc, error) {
 	return p, nil
 }
 
+// submit classifies the answer to a submission at the interface: accepted (no error) or rejected
+// (any error: which error value or text a rejection carries is not the property's business; whether
+// it carries the identity of single.ErrQueueFull is noted for the evidence).
 func (p *proc) submit(id string, batch *coresequencer.Batch) Obs {
 	_, err := p.seq.SubmitBatchTxs(context.Background(), coresequencer.SubmitBatchTxsRequest{Id: []byte(id), Batch: batch})
-	switch {
-	case err == nil:
+	if err == nil {
 		return Obs{Kind: "ok"}
-	case errors.Is(err, single.ErrQueueFull):
-		return Obs{Kind: "full"}
-	case errors.Is(err, single.ErrInvalidId):
-		return Obs{Kind: "invalid-id"}
 	}
-	return Obs{Kind: "err", Err: err.Error()}
+	o := Obs{Kind: "rejected", Err: err.Error()}
+	o.fullIdentity = errors.Is(err, single.ErrQueueFull)
+	return o
 }
 
 func (p *proc) next(names map[string]string) Obs {
@@ -398,12 +404,60 @@ func (p *proc) next(names map[string]string) Obs {
 	return Obs{Kind: "batch", Batch: "?unknown-content:" + ck}
 }
 
+// drainOf starts a sequencer over a copy of the image and takes batches until the queue stays
+// empty: what a process restarted on this image would hand out.
+func drainOf(im *world.Image, bound int, names map[string]string) ([]string, error) {
+	p, err := startProc(im.Clone(), bound)
+	if err != nil {
+		return nil, err
+	}
+	var out []string
+	empties := 0
+	for i := 0; i < 4096 && empties < 2; i++ {
+		o := p.next(names)
+		switch o.Kind {
+		case "batch":
+			for ; empties > 0; empties-- {
+				out = append(out, emptyName)
+			}
+			out = append(out, o.Batch)
+		case "empty":
+			empties++
+		default:
+			return out, errors.New("GetNextBatch: " + o.Err)
+		}
+	}
+	return out, nil
+}
+
+// writeLegacy puts the records the version before the sequence-numbered keys would have left for
+// these batches into the image: key = hex(content hash) under the queue's prefix, value = the
+// protobuf batch.
+func writeLegacy(im *world.Image, names []string) error {
+	d := world.NewMemDS(im)
+	for _, n := range names {
+		b := coresequencer.Batch{Transactions: txsOf(n)}
+		h, err := b.Hash()
+		if err != nil {
+			return err
+		}
+		val, err := proto.Marshal(&pb.Batch{Txs: b.Transactions})
+		if err != nil {
+			return err
+		}
+		if err := d.Put(context.Background(), ds.NewKey(legacyPrefix+"/"+hex.EncodeToString(h)), val); err != nil {
+			return err
+		}
+	}
+	return nil
+}
+
 // Step is one executed operation with what was observed.
 type Step struct {
 	I      int    `json:"i"`
 	Op     string `json:"op"`
 	Obs    string `json:"observed"`
-	Keys   int    `json:"keys_under_prefix"`
+	Keys   int    `json:"keys_in_database"`
 	States string `json:"model_after,omitempty"`
 }
 
@@ -418,29 +472,21 @@ type Verdict struct {
 	TrigA   bool     `json:"trigger_content_hash_key"`
 	TrigB   bool     `json:"trigger_reload_order"`
 	hits    map[string]int64
+	counts  map[string]int64
 	nReject int
 	nRest   int
 	nCrash  int
 }
 
-func (v *Verdict) hit(c string) { v.hits[c]++ }
+func (v *Verdict) hit(c string)   { v.hits[c]++ }
+func (v *Verdict) count(c string) { v.counts[c]++ }
 
-func imageUnder(im *world.Image, prefix string) map[string]string {
-	out := map[string]string{}
-	for k, val := range im.Snapshot() {
-		if strings.HasPrefix(k, prefix) {
-			out[k] = string(val)
-		}
-	}
-	return out
-}
-
-func sameImage(a, b map[string]string) bool {
+func sameImage(a, b map[string][]byte) bool {
 	if len(a) != len(b) {
 		return false
 	}
 	for k, v := range a {
-		if w, ok := b[k]; !ok || w != v {
+		if w, ok := b[k]; !ok || !bytes.Equal(w, v) {
 			return false
 		}
 	}
@@ -449,11 +495,17 @@ func sameImage(a, b map[string]string) bool {
 
 // Judge executes the history against the real single sequencer and judges it with the model.
 func Judge(h History) *Verdict {
-	v := &Verdict{Kind: "pass", At: -1, hits: map[string]int64{}}
+	v := &Verdict{Kind: "pass", At: -1, hits: map[string]int64{}, counts: map[string]int64{}}
 	im := world.NewImage()
+	if len(h.Legacy) > 0 {
+		if err := writeLegacy(im, h.Legacy); err != nil {
+			v.Kind, v.Detail = "inconclusive", "cannot build the legacy records: "+err.Error()
+			return v
+		}
+	}
 	p, err := startProc(im, h.Bound)
 	if err != nil {
-		v.Kind, v.Clause, v.Detail = "violation", "startup", "sequencer does not start on an empty datastore: "+err.Error()
+		v.Kind, v.Clause, v.Detail = "violation", "startup", "sequencer does not start on the initial datastore: "+err.Error()
 		return v
 	}
 	names := map[string]string{}
@@ -462,7 +514,13 @@ func Judge(h History) *Verdict {
 			names[contentKey(txsOf(op.Batch))] = op.Batch
 		}
 	}
-	S := []*mstate{newState()}
+	for _, n := range h.Legacy {
+		names[contentKey(txsOf(n))] = n
+	}
+	S := []*mstate{newLegacyState(h.Legacy)}
+	// the predicted deviations of the two recorded findings are only forked in histories without
+	// legacy records (there the unknown order of the first batches is legitimate, nothing else is)
+	tolerate := len(h.Legacy) == 0
 	fail := func(i int, clause, detail string) *Verdict {
 		v.Kind, v.Clause, v.Detail, v.At = "violation", clause, detail, i
 		return v
@@ -477,7 +535,6 @@ func Judge(h History) *Verdict {
 		return nil
 	}
 	doRestart := func(i int) *Verdict {
-		before := S
 		if maxLen(S) >= 1 {
 			v.hit("restart-continuity")
 		}
@@ -485,15 +542,14 @@ func Judge(h History) *Verdict {
 			return fail(i, "restart", "a new sequencer over the same datastore does not start: "+err.Error())
 		}
 		var a, b bool
-		S, a, b = stepRestart(S, true)
+		S, a, b = stepRestart(S, tolerate)
 		v.TrigA = v.TrigA || a
 		v.TrigB = v.TrigB || b
 		v.nRest++
-		_ = before
 		return nil
 	}
 	record := func(i int, op Op, o Obs) {
-		st := Step{I: i, Op: op.String(), Obs: o.String(), Keys: len(im.Keys(queuePrefix))}
+		st := Step{I: i, Op: op.String(), Obs: o.String(), Keys: len(im.Keys(""))}
 		if len(S) <= 4 {
 			st.States = describeStates(S)
 		} else {
@@ -501,10 +557,38 @@ func Judge(h History) *Verdict {
 		}
 		v.Trace = append(v.Trace, st)
 	}
+	// noTrace: a rejected submission leaves no trace = a sequencer restarted on the database as it is
+	// after the rejected call hands out exactly what one restarted on the database as it was before
+	// the call hands out. (Byte-identical databases trivially do; that is counted for the evidence.)
+	noTrace := func(i int, op Op, o Obs, before *world.Image, what string) *Verdict {
+		v.hit("no-trace")
+		if sameImage(before.Snapshot(), im.Snapshot()) {
+			v.count("rejected_submission_database_byte_identical")
+			return nil
+		}
+		v.count("rejected_submission_database_bytes_changed")
+		was, err1 := drainOf(before, h.Bound, names)
+		is, err2 := drainOf(im, h.Bound, names)
+		if err1 != nil || err2 != nil {
+			record(i, op, o)
+			return fail(i, "restart", fmt.Sprintf("a sequencer over a copy of the datastore fails: %v / %v", err1, err2))
+		}
+		if strings.Join(was, ",") != strings.Join(is, ",") {
+			record(i, op, o)
+			return fail(i, "no-trace", fmt.Sprintf("%s, but it left a trace: a sequencer restarted on the database as it was before the call hands out [%s], one restarted on the database after the call hands out [%s]", what, strings.Join(was, " "), strings.Join(is, " ")))
+		}
+		return nil
+	}
 	exec := func(i int, op Op) *Verdict {
-		before := imageUnder(im, "")
 		prev := S
 		var o Obs
+		died := false
+		w0 := p.ds.Writes()
+		arm := func() {
+			if op.Crash != crashNone {
+				p.ds.CrashAfter(op.Crash - 1)
+			}
+		}
 		switch op.Kind {
 		case "sub", "sub-empty", "sub-foreign":
 			id := chainID
@@ -520,81 +604,98 @@ func Judge(h History) *Verdict {
 					b = &coresequencer.Batch{}
 				}
 			}
-			if op.Crash == crashCut && op.Kind == "sub" {
-				p.ds.CrashAfter(0)
-				_ = p.submit(id, b)
+			before := im.Clone()
+			arm()
+			o = p.submit(id, b)
+			if died = p.ds.Crashed(); died {
+				// the process died inside the operation: nobody saw the answer; the submission is in or out
 				o = Obs{Kind: "cut"}
 				v.nCrash++
 				v.hit("crash-atomicity")
+				v.count(fmt.Sprintf("crash_inside_submit_at_write_%d", op.Crash))
 				var S2 []*mstate
 				for _, s := range S {
 					S2 = append(S2, s, effSub(s, op.Batch, h.Bound))
 				}
 				S = dedupe(S2)
-			} else {
-				o = p.submit(id, b)
-				after := imageUnder(im, "")
-				switch op.Kind {
-				case "sub":
-					v.hit("fifo-model")
-					if o.Kind == "err" || o.Kind == "invalid-id" {
-						record(i, op, o)
-						return fail(i, "admission", fmt.Sprintf("submission of %s for the own chain id failed with %s", op.Batch, o))
-					}
-					if o.Kind == "full" {
-						v.nReject++
-						v.hit("no-trace")
-						if !sameImage(before, after) {
-							record(i, op, o)
-							return fail(i, "no-trace", fmt.Sprintf("submission of %s was rejected (queue full) but the key space changed: %d -> %d keys", op.Batch, len(before), len(after)))
-						}
-					}
-					S = stepSub(S, op.Batch, h.Bound, o)
-				case "sub-foreign":
+				break
+			}
+			switch op.Kind {
+			case "sub":
+				v.hit("fifo-model")
+				if h.Bound > 0 {
+					v.hit("bound")
+				}
+				if o.Kind == "rejected" {
 					v.nReject++
-					v.hit("no-trace")
-					v.hit("foreign-rejected")
+					if o.fullIdentity {
+						v.count("rejections_carrying_ErrQueueFull")
+					} else {
+						v.count("rejections_with_another_error")
+					}
+				}
+				S = stepSub(S, op.Batch, h.Bound, o)
+				if len(S) == 0 {
+					record(i, op, o)
 					if o.Kind == "ok" {
-						record(i, op, o)
-						return fail(i, "foreign-rejected", fmt.Sprintf("a submission for foreign chain id %q was accepted", foreignID))
+						return fail(i, "bound", fmt.Sprintf("submission of %s was accepted although %d batches accepted earlier have not been handed out yet and the bound is %d - or a batch accepted earlier has been lost (possible states before: %s)", op.Batch, h.Bound, h.Bound, describeStates(prev)))
 					}
-					if !sameImage(before, after) {
-						record(i, op, o)
-						return fail(i, "no-trace", "a submission with a foreign chain id changed the key space")
+					return fail(i, "admission", fmt.Sprintf("submission of %s for the own chain id was refused (%s) although fewer batches than the bound (%d) are waiting in every possible state: %s", op.Batch, o.Err, h.Bound, describeStates(prev)))
+				}
+				if o.Kind == "rejected" {
+					if r := noTrace(i, op, o, before, fmt.Sprintf("submission of %s was rejected (%s)", op.Batch, o.Err)); r != nil {
+						return r
 					}
-				case "sub-empty":
-					v.hit("no-trace")
-					if !sameImage(before, after) {
-						record(i, op, o)
-						return fail(i, "no-trace", "an empty submission changed the key space")
-					}
+				}
+			case "sub-foreign":
+				v.nReject++
+				v.hit("foreign-rejected")
+				if o.Kind == "ok" {
+					record(i, op, o)
+					return fail(i, "foreign-rejected", fmt.Sprintf("a submission for foreign chain id %q was accepted", foreignID))
+				}
+				if r := noTrace(i, op, o, before, "a submission with a foreign chain id was rejected"); r != nil {
+					return r
+				}
+			case "sub-empty":
+				// ignored, refused, or queued and handed out once in order: all fine
+				v.hit("empty-submission")
+				if o.Kind == "ok" {
+					S = stepSubEmpty(S, h.Bound, op.Nil)
+				}
+				if !sameImage(before.Snapshot(), im.Snapshot()) {
+					v.count("empty_submission_changed_the_database")
 				}
 			}
 		case "next":
-			if op.Crash == crashCut {
-				p.ds.CrashAfter(0)
-				quietly(func() { _ = p.next(names) })
+			arm()
+			if op.Crash != crashNone {
+				quietly(func() { o = p.next(names) })
+			} else {
+				o = p.next(names)
+			}
+			if died = p.ds.Crashed(); died {
 				o = Obs{Kind: "cut"}
 				v.nCrash++
 				v.hit("crash-atomicity")
+				v.count(fmt.Sprintf("crash_inside_next_at_write_%d", op.Crash))
 				var S2 []*mstate
 				for _, s := range S {
 					S2 = append(S2, s)
 					S2 = append(S2, effNext(s)...)
 				}
 				S = dedupe(S2)
-			} else {
-				o = p.next(names)
-				v.hit("fifo-model")
-				if o.Kind == "err" {
-					record(i, op, o)
-					return fail(i, "fifo-model", "GetNextBatch failed: "+o.Err)
-				}
-				if o.Kind == "batch" {
-					v.hit("delivery")
-				}
-				S = stepNext(S, o)
+				break
 			}
+			v.hit("fifo-model")
+			if o.Kind == "err" {
+				record(i, op, o)
+				return fail(i, "fifo-model", "GetNextBatch failed: "+o.Err)
+			}
+			if o.Kind == "batch" {
+				v.hit("delivery")
+			}
+			S = stepNext(S, o)
 		case "restart":
 			o = Obs{Kind: "restarted"}
 			if r := doRestart(i); r != nil {
@@ -602,14 +703,17 @@ func Judge(h History) *Verdict {
 				return r
 			}
 		}
+		if n := p.ds.Writes() - w0; op.Kind != "restart" && int64(n) > v.counts["max_durable_writes_in_one_operation"] {
+			v.counts["max_durable_writes_in_one_operation"] = int64(n)
+		}
 		if len(S) == 0 {
 			record(i, op, o)
-			clause := "fifo-model"
-			return fail(i, clause, fmt.Sprintf("operation %d (%s) returned %s; the bounded FIFO model allows that in none of its possible states: %s", i, op, o, describeStates(prev)))
+			return fail(i, "fifo-model", fmt.Sprintf("operation %d (%s) returned %s; the bounded FIFO model allows that in none of its possible states: %s", i, op, o, describeStates(prev)))
 		}
 		if op.Crash != crashNone && op.Kind != "restart" {
-			if op.Crash == crashAfterOp {
+			if !died {
 				v.nCrash++
+				v.count("crash_right_after_operation")
 			}
 			if r := doRestart(i); r != nil {
 				record(i, op, o)
@@ -617,15 +721,8 @@ func Judge(h History) *Verdict {
 			}
 		}
 		record(i, op, o)
-		// queue bound, seen at the property's own observation point (the durable key space)
-		if h.Bound > 0 {
-			v.hit("bound")
-			if k := len(im.Keys(queuePrefix)); k > h.Bound {
-				return fail(i, "bound", fmt.Sprintf("%d batches are stored under the queue prefix, the bound is %d", k, h.Bound))
-			}
-		}
-		if k := p.outside(); k != "" {
-			return fail(i, "no-trace", "the queue wrote outside its prefix: "+k)
+		if k := int64(len(im.Keys(""))); k > v.counts["max_keys_in_database"] {
+			v.counts["max_keys_in_database"] = k
 		}
 		if len(S) > maxStateSet {
 			v.Kind, v.Detail, v.At = "inconclusive", "state set of the model grew beyond the cap", i
@@ -661,6 +758,9 @@ func Judge(h History) *Verdict {
 		return r
 	}
 	v.hit("no-reappearance")
+	if len(h.Legacy) > 0 {
+		v.hit("legacy-records-first")
+	}
 	best := bestState(S)
 	if best.loss || best.perm {
 		v.Kind = "finding"
